@@ -20,13 +20,17 @@
 (* with real Documentable objects.                                         *)
 (* CacheKey = "object" is the design-level negative control: a cache keyed *)
 (* by object identity violates ObservedRight after a move.                 *)
+(* CacheKey = "objectPop" is a second one: keyed by object, reparent()     *)
+(* drops the entry of the moved object only - members asked before the     *)
+(* move keep the privacy of their old qualified name                       *)
+(* (Query(F); Reparent(K); Query(F)).                                      *)
 (***************************************************************************)
 EXTENDS Privacy, Json
 
 CONSTANTS RuleSetIds,  \* subset of DOMAIN RuleSets explored
           MaxMoves,    \* bound on the number of reparent() calls in a behaviour
           MaxDepth,    \* bound on the length of a behaviour
-          CacheKey     \* "fullName" (what the code does) | "object" (negative control)
+          CacheKey     \* "fullName" (what the code does) | "object" | "objectPop" (negative controls)
 
 R(lv, pat) == [lv |-> lv, pat |-> pat]
 RuleSets == <<
@@ -114,7 +118,10 @@ Reparent(o, m, n) ==
   /\ moves' = moves + 1
   /\ hist' = Append(hist, Step("reparent", o, "-", "-", m, n))
   /\ steps' = steps + 1
-  /\ UNCHANGED <<rid, cache>>                                           \* reparent() does not touch the cache
+  /\ cache' = IF CacheKey = "objectPop"                                 \* reparent() does not touch the cache
+               THEN [k \in DOMAIN cache \ {<<o>>} |-> cache[k]]            \* (control: forgets the moved object only)
+               ELSE cache
+  /\ UNCHANGED rid
 
 Next == \/ \E o \in Objs : Query(o)
         \/ \E o \in Objs \ Mods : QueryVisible(o)
